@@ -1,12 +1,395 @@
+//! C02: delegation follows entitlements, never over-claims, converges and is
+//! idempotent.
+
+use std::collections::BTreeMap;
+use rpki::repository::resources::ResourceSet;
 use crate::history::Runner;
+use crate::hooks;
+use crate::model::Res;
+use crate::objsets;
 use crate::rp::RpResult;
+use crate::sim::handle;
+use crate::util::block_on;
 
 #[derive(Default)]
 pub struct State {
     pub last_entitlement_change: usize,
+    /// (issuer CA, subject key id) -> (serial, resources) last seen in the
+    /// issuer's stored object set.
+    pub issued: BTreeMap<(String, String), (String, ResourceSet)>,
+    pub certs_checked: u64,
+    pub first_appearances: u64,
+    pub shrinks_seen: u64,
 }
 
-pub fn instant(_r: &mut Runner) { }
+/// Instant invariant over the stored object set of every CA: what the CA is
+/// about to publish (and after the next repository sync has published).
+pub fn instant(r: &mut Runner) {
+    let cas: Vec<(usize, String)> = r.model.cas.values()
+        .map(|c| (c.inst, c.name.clone())).collect();
+    let jail = r.world.inst(0).cfg.rsync_jail();
+    for (inst, name) in cas {
+        if !r.world.inst(inst).is_up() {
+            continue
+        }
+        let classes = hooks::with_faults_suspended(|| {
+            objsets::read(r.world.inst(inst).rt(), &name)
+        });
+        for class in &classes {
+            for set in &class.sets {
+                for product in set.products.values() {
+                    let Some((cert, res)) = objsets::as_ca_cert(product) else {
+                        continue
+                    };
+                    r.ext.c02.certs_checked += 1;
+                    // Never over-claiming.
+                    if !set.signing_resources.contains(&res) {
+                        r.violation(
+                            "C02", "overclaim",
+                            format!(
+                                "CA {name}: child certificate {} claims {} \
+                                 which is outside the issuing key's \
+                                 certificate ({})",
+                                product.name, res, set.signing_resources
+                            )
+                        );
+                    }
+                    if res.is_empty() {
+                        r.violation(
+                            "C02", "empty_certificate",
+                            format!(
+                                "CA {name}: child certificate {} carries no \
+                                 resources", product.name
+                            )
+                        );
+                    }
+                    // First appearance of this serial.
+                    let subject = cert.subject_key_identifier().to_string();
+                    let key = (name.clone(), subject.clone());
+                    let prev = r.ext.c02.issued.get(&key).cloned();
+                    let is_new = prev.as_ref()
+                        .map(|(serial, _)| serial != &product.serial)
+                        .unwrap_or(true);
+                    if !is_new {
+                        continue
+                    }
+                    r.ext.c02.first_appearances += 1;
+                    // Which child is this?
+                    let child: Option<String> = cert.ca_repository()
+                        .map(|uri| uri.to_string())
+                        .and_then(|uri| {
+                            uri.strip_prefix(jail.as_str()).and_then(|rest| {
+                                rest.split('/').next().map(|s| s.to_string())
+                            })
+                        });
+                    if let Some(child) = child {
+                        if let Some(link) = r.model.child_at(inst, &name, &child) {
+                            let ent = link.ent.to_set();
+                            let exact = ent.intersection(&set.signing_resources);
+                            let ok_exact = exact == res;
+                            // A re-issue not asked for by the child (issuer
+                            // shrank, issuer rolled its key, child was
+                            // unsuspended) carries what the previous
+                            // certificate and the issuer's still share.
+                            let ok_reissue = prev.as_ref().map(|(_, old)| {
+                                old.intersection(&set.signing_resources) == res
+                            }).unwrap_or(false);
+                            if let Some((_, old)) = &prev {
+                                if old != &res {
+                                    r.ext.c02.shrinks_seen += 1;
+                                }
+                            }
+                            // A child that was suspended gets back the
+                            // certificate it had (possibly shrunk while it
+                            // was away); it asks for the rest itself, which
+                            // the convergence check covers.
+                            let ok_unsuspend = link.was_suspended
+                                && exact.contains(&res);
+                            if !ok_exact && !ok_reissue && !ok_unsuspend {
+                                r.violation(
+                                    "C02", "issued_not_exact",
+                                    format!(
+                                        "CA {name} issued {} to child {child} \
+                                         with {res}; entitlement is {ent}, \
+                                         issuing key holds {}, so exactly {exact} \
+                                         was due (previous certificate: {:?})",
+                                        product.name, set.signing_resources,
+                                        prev.as_ref().map(|p| p.1.to_string())
+                                    )
+                                );
+                            }
+                        }
+                    }
+                    r.ext.c02.issued.insert(key, (product.serial.clone(), res));
+                }
+            }
+        }
+    }
+}
+
 pub fn after_task(_r: &mut Runner) { }
+
 pub fn at_caught_up(_r: &mut Runner, _repo_inst: usize, _rpres: &RpResult) { }
-pub fn final_convergence(_r: &mut Runner) { }
+
+/// Brings every key roll to an end and every CA in sync with its parents.
+///
+/// Returns the number of rounds needed, or None if it did not settle.
+pub fn settle(r: &mut Runner, max_rounds: usize) -> Option<usize> {
+    let mut last_digest = String::new();
+    for round in 0..max_rounds {
+        // Refresh everything and let it play out.
+        for idx in 0..r.world.insts.len() {
+            if r.world.inst(idx).is_up() {
+                r.world.inst(idx).enter();
+                let _ = block_on(r.world.inst(idx).mgr().cas_refresh_all());
+            }
+        }
+        if r.exec_pump() != "caught_up" {
+            return None
+        }
+        // Anything still rolling or requesting?
+        let mut pending = false;
+        let cas: Vec<(usize, String)> = r.model.cas.values()
+            .map(|c| (c.inst, c.name.clone())).collect();
+        for (inst, name) in &cas {
+            for class in r.class_infos(*inst, name) {
+                if !r.class_live(*inst, name, &class.name_space, 0) {
+                    continue
+                }
+                match class.state.as_str() {
+                    "active" => { }
+                    "roll_new" => {
+                        pending = true;
+                        r.world.inst(*inst).enter();
+                        let _ = block_on(
+                            r.world.inst(*inst).mgr().ca_keyroll_activate(
+                                handle(name), crate::world::ADMIN
+                            )
+                        );
+                        crate::oracles::after_op(r);
+                    }
+                    _ => { pending = true; }
+                }
+            }
+            if has_open_requests(r, *inst, name) {
+                pending = true;
+            }
+        }
+        // Settled means: nothing pending and a further full round of
+        // synchronisations did not change any observable state (a parent
+        // may have gained a class after its child last asked).
+        let digest = settle_digest(r);
+        if !pending && digest == last_digest {
+            return Some(round + 1)
+        }
+        last_digest = digest;
+    }
+    None
+}
+
+/// Observable state for the fix-point test: certificates held and published
+/// content, but not command counters (a refresh that finds nothing to do
+/// adds no command anyway; idempotence is judged separately).
+fn settle_digest(r: &Runner) -> String {
+    let mut text = String::new();
+    for ca in r.model.cas.values() {
+        for class in r.class_infos(ca.inst, &ca.name) {
+            text.push_str(&format!(
+                "{}:{}:{}:{:?}:{:?};", ca.name, class.rcn, class.state,
+                class.key_ids, class.cert_dir
+            ));
+        }
+        if let Some(held) = r.held_set(ca.inst, &ca.name) {
+            text.push_str(&held.to_string());
+        }
+    }
+    if let Ok((objects, _)) = r.world.objects(0) {
+        for (uri, bytes) in objects {
+            if uri.ends_with(".cer") || uri.ends_with(".roa")
+                || uri.ends_with(".asa")
+            {
+                text.push_str(&uri);
+                text.push_str(&crate::util::sha256_hex(&bytes)[..16]);
+            }
+        }
+    }
+    crate::util::sha256_hex(text.as_bytes())
+}
+
+/// Whether the CA has open requests towards a parent it is still known at.
+pub fn has_open_requests(r: &Runner, inst: usize, name: &str) -> bool {
+    let Some(mca) = r.model.ca(inst, name) else { return false };
+    let live_parents: Vec<String> = mca.parents.iter().filter(|(_, link)| {
+        match r.model.child_at(
+            link.parent_inst, &link.parent_ca, &link.child_handle
+        ) {
+            Some(at_parent) => {
+                !at_parent.suspended && (
+                    link.parent_ca == "ta"
+                    || r.is_live(link.parent_inst, &link.parent_ca, 0)
+                )
+            }
+            None => false
+        }
+    }).map(|(handle, _)| handle.clone()).collect();
+    hooks::with_faults_suspended(|| {
+        let i = r.world.inst(inst);
+        if !i.is_up() {
+            return false
+        }
+        let Ok(ca) = i.rt().ca_manager().get_ca(&handle(name)) else {
+            return false
+        };
+        ca.parents().any(|p| {
+            live_parents.iter().any(|l| l == p.as_str())
+                && ca.has_pending_requests(p)
+        })
+    })
+}
+
+/// Convergence and idempotence after the last entitlement change.
+pub fn final_convergence(r: &mut Runner) {
+    if !r.oracles.c02 {
+        return
+    }
+    let rounds = settle(r, 8);
+    if r.dead.is_some() {
+        return
+    }
+    let Some(rounds) = rounds else {
+        r.violation(
+            "C02", "no_convergence",
+            "parent-child synchronisation did not settle within 8 refresh \
+             rounds after the last change".to_string()
+        );
+        return
+    };
+    r.stats.insert("c02.settle_rounds_max".into(), std::cmp::max(
+        rounds as u64,
+        r.stats.get("c02.settle_rounds_max").copied().unwrap_or(0)
+    ));
+
+    // One current certificate per entitled class with exactly the entitled
+    // resources: compare what is published with the model.
+    let repo_inst = 0;
+    let excluded = r.excluded_dirs(repo_inst);
+    let Ok(rpres) = r.world.rp_walk(repo_inst, &excluded) else { return };
+    let jail = r.world.inst(repo_inst).cfg.rsync_jail();
+    let cas: Vec<crate::model::MCa> = r.model.cas.values().cloned().collect();
+    for ca in &cas {
+        if !r.is_live(ca.inst, &ca.name, 0) {
+            continue
+        }
+        let dir = format!("{jail}{}/", ca.name);
+        for (phandle, link) in &ca.parents {
+            if link.parent_ca == "ta" {
+                continue
+            }
+            let Some(at_parent) = r.model.child_at(
+                link.parent_inst, &link.parent_ca, &link.child_handle
+            ) else { continue };
+            if at_parent.suspended {
+                continue
+            }
+            if !r.is_live(link.parent_inst, &link.parent_ca, 0) {
+                continue
+            }
+            let ent = at_parent.ent.to_set();
+            // Parent's live classes and what each may give.
+            let pdir = format!("{jail}{}/", link.parent_ca);
+            let pclasses = r.class_infos(link.parent_inst, &link.parent_ca);
+            for pclass in &pclasses {
+                if !r.class_live(
+                    link.parent_inst, &link.parent_ca, &pclass.name_space, 0
+                ) {
+                    continue
+                }
+                let Some(pkey) = &pclass.active_key else { continue };
+                // The parent's certificate for this class as validated.
+                let Some(pcert) = rpres.ca_certs.iter().find(|c| {
+                    c.subject_key.to_string() == *pkey
+                        && c.ca_repository.starts_with(&pdir)
+                }) else { continue };
+                let due = ent.intersection(&pcert.resources);
+                // Certificates the parent's key issued to this child.
+                let got: Vec<&crate::rp::CaCertFact> = rpres.ca_certs.iter()
+                    .filter(|c| {
+                        c.issuer_key.to_string() == *pkey
+                            && c.ca_repository.starts_with(&dir)
+                    }).collect();
+                if due.is_empty() {
+                    if !got.is_empty() {
+                        r.violation(
+                            "C02", "converged_extra_certificate",
+                            format!(
+                                "child {} holds a certificate under {} class \
+                                 {} although nothing is due: {}",
+                                ca.name, phandle, pclass.rcn, got[0].resources
+                            )
+                        );
+                    }
+                    continue
+                }
+                if got.len() != 1 {
+                    r.violation(
+                        "C02", "converged_certificate_count",
+                        format!(
+                            "after convergence child {} has {} certificates \
+                             under parent {} class {} (due: {due})",
+                            ca.name, got.len(), phandle, pclass.rcn
+                        )
+                    );
+                    continue
+                }
+                if got[0].resources != due {
+                    r.violation(
+                        "C02", "converged_resources",
+                        format!(
+                            "after convergence child {} holds {} under \
+                             parent {} class {}, entitled to exactly {due}",
+                            ca.name, got[0].resources, phandle, pclass.rcn
+                        )
+                    );
+                }
+            }
+        }
+        if has_open_requests(r, ca.inst, &ca.name) {
+            r.violation(
+                "C02", "converged_open_requests",
+                format!("CA {} still has open requests", ca.name)
+            );
+        }
+    }
+
+    // Idempotence: further synchronisations change nothing.
+    let before: Vec<(String, (usize, bool))> = cas.iter().map(|ca| {
+        (ca.name.clone(), r.audit_tail(ca.inst, &ca.name))
+    }).collect();
+    for _ in 0..2 {
+        for idx in 0..r.world.insts.len() {
+            if r.world.inst(idx).is_up() {
+                r.world.inst(idx).enter();
+                let _ = block_on(r.world.inst(idx).mgr().cas_refresh_all());
+            }
+        }
+        if r.exec_pump() != "caught_up" {
+            return
+        }
+    }
+    for (ca, (name, old)) in cas.iter().zip(before) {
+        if r.model.ca(ca.inst, &name).is_none() {
+            continue
+        }
+        let new = r.audit_tail(ca.inst, &name);
+        if new.0 != old.0 {
+            r.violation(
+                "C02", "not_idempotent",
+                format!(
+                    "two further refresh rounds added {} command(s) to the \
+                     history of CA {name}", new.0 as i64 - old.0 as i64
+                )
+            );
+        }
+    }
+    let _ = Res::NONE;
+}
